@@ -383,7 +383,7 @@ pub fn make_history(corpus: &[String], rng: &mut Rng, len: usize, max_depth: u8)
             }
             _ => base.clone(),
         };
-        steps.push(HStep { root: root.clone(), limit, stop_at: if rng.chance(1, 8) { 1 + rng.range(0, 400) } else { 0 }, clear_table: rng.chance(1, 40) });
+        steps.push(HStep { root: root.clone(), limit, stop_at: if rng.chance(1, 5) { 1 + rng.range(0, 400) } else { 0 }, clear_table: rng.chance(1, 40) });
         if rng.chance(1, 4) {
             // same root again with another limit (shallower-after-deeper / deeper-after-shallower)
             let l2 = Some(1 + rng.below(max_depth as usize) as u8);
